@@ -400,6 +400,33 @@ def r4(R, m, methods):
             R.check(ok, "C17.R4", REL, c.lineno, "columnfile.%s" % name, "new column expression %s" % src(c.elt),
                     "the new columnfile's columns may share memory with the source (basic indexing with a slice returns a "
                     "view): writing to the copy changes the original")
+        # any other read self.__data[...] that is stored into the new object (a whole-table selection self.__data[:, rows] on the 2D layout)
+        for sub in ast.walk(fn):
+            if not (isinstance(sub, ast.Subscript) and is_self_data(sub.value) and isinstance(sub.ctx, ast.Load)):
+                continue
+            wrapped, n_, stmt = False, sub, None
+            while n_ is not None:
+                par = getattr(n_, "_parent", None)
+                if isinstance(par, ast.Call) and n_ in par.args and fresh(par, None):
+                    wrapped = True
+                if isinstance(par, ast.Call) and isinstance(par.func, ast.Attribute) and par.func.value is n_ and fresh(par, None):
+                    wrapped = True
+                if isinstance(par, ast.BinOp):
+                    wrapped = True
+                if isinstance(par, ast.stmt):
+                    stmt = par
+                    break
+                n_ = par
+            into_new = False
+            if isinstance(stmt, ast.Assign):
+                into_new = any(isinstance(t, ast.Attribute) and isinstance(t.value, ast.Name) and t.value.id != "self" for t in stmt.targets)
+            elif isinstance(stmt, ast.Expr) and isinstance(stmt.value, ast.Call) and isinstance(stmt.value.func, ast.Attribute):
+                f_ = stmt.value.func
+                into_new = isinstance(f_.value, ast.Name) and f_.value.id != "self" and f_.attr in ("set_bigarray", "addcolumn", "setcolumn")
+            if into_new:
+                R.check(wrapped, "C17.R4", REL, sub.lineno, "columnfile.%s" % name, "new storage expression %s" % src(stmt)[:80],
+                        "the new columnfile's storage is a selection of self.__data that is not copied (basic indexing with a slice "
+                        "returns a view of the 2D table): writing to the copy changes the original")
         # the new object gets its own titles list and parameters
         tl = [s for s in ast.walk(fn) if isinstance(s, ast.Assign) and src(s.targets[0]).endswith(".titles")]
         R.check(all(not (isinstance(s.value, ast.Attribute) and src(s.value) == "self.titles") for s in tl) and bool(tl), "C17.R4", REL,
